@@ -31,7 +31,12 @@ func (engine) CoqCaseType() string { return "ccase" }
 
 func (engine) Generate(r *lib.Rng, tier string, i int) any {
 	c := genCase(r, tier)
-	c.Storm = stormOf(c, tier)
+	storm, prelude := stormOf(c, tier), preludeOf(c) // both derived from the case as generated
+	tails := tailsOf(c)
+	c.Storm, c.Prelude = storm, prelude
+	for i, t := range tails {
+		c.Nodes[i].Tail = t
+	}
 	return c
 }
 
@@ -370,37 +375,24 @@ const (
 	settleHard  = 10 * time.Second
 )
 
-func (engine) Run(ci any) lib.Result {
-	c := ci.(*Case)
-	e := newEnv(c)
+// settleOut is what the settle loop found after a call (or a prelude of calls) returned
+type settleOut struct {
+	blocked, leaked []string
+	sum             hookSummary
+	earlyWhy        string // why the run counts as unfinished (outside the property), judged right after it returned
+	events          []schema.VerifC19Event
+}
 
-	if c.Storm != nil {
-		// before the run, with the accounting log off: sibling copies closed at the same moment (storm.go)
-		if why := closeStorm(c.Storm); why != "" {
-			return lib.Result{Obs: &Obs{Class: "storm", Msg: why, Execs: []string{}, Producers: []string{}},
-				Oracle: why, Sig: "close-storm", Tags: []string{"class:storm-failed", "has:close-storm"}}
-		}
-	}
-
+func baseline() (map[int]bool, int) {
 	base := map[int]bool{}
 	for _, g := range dumpGoroutines() {
 		base[g.id] = true
 	}
-	baseN := runtime.NumGoroutine()
-	schema.VerifC19Start()
-	tRun := time.Now()
-	out := runCase(e)
-	if timing {
-		timeRun += time.Since(tRun)
-		defer func(t time.Time) {
-			timeSettle += time.Since(t)
-			timeCases++
-			if timeCases%200 == 0 {
-				fmt.Fprintf(os.Stderr, "c19 timing: %d cases, run %v, settle+rest %v (settle loop %v, %d polls, dumps %v)\n", timeCases, timeRun, timeSettle, timeLoop, timeIters, timeDump)
-			}
-		}(time.Now())
-	}
+	return base, runtime.NumGoroutine()
+}
 
+// settle waits for the run to go quiet, stops the accounting log and says what was left behind
+func settle(c *Case, e *env, base map[int]bool, baseN int, out runOut) settleOut {
 	// settle: poll until every producer is released, no new framework goroutine is left and every
 	// internal stream is drained or closed. A failure verdict is only given once the run is
 	// quiescent: for settleQuiet no accounting event was logged and every goroutine created
@@ -503,6 +495,53 @@ func (engine) Run(ci any) lib.Result {
 	sort.Strings(blocked)
 	sort.Strings(leaked)
 
+	return settleOut{blocked: blocked, leaked: leaked, sum: sum, earlyWhy: earlyWhy, events: finalEvents}
+}
+
+func (engine) Run(ci any) lib.Result {
+	c := ci.(*Case)
+	e := newEnv(c)
+
+	if c.Storm != nil {
+		// before the run, with the accounting log off: sibling copies closed at the same moment (storm.go)
+		if why := closeStorm(c.Storm); why != "" {
+			return lib.Result{Obs: &Obs{Class: "storm", Msg: why, Execs: []string{}, Producers: []string{}},
+				Oracle: why, Sig: "close-storm", Tags: []string{"class:storm-failed", "has:close-storm"}}
+		}
+	}
+
+	base, baseN := baseline()
+	schema.VerifC19Start()
+	tRun := time.Now()
+	r, out := buildCase(e)
+	var preTag []string
+	if out.class == "" && c.Prelude != "" {
+		// earlier calls on the same compiled runnable (prelude.go), judged by the direct oracle alone; the run
+		// below is then NOT the first call on this compiled object
+		var bad *lib.Result
+		if bad, preTag = prelude(c, e, r, base, baseN); bad != nil {
+			return *bad
+		}
+		base, baseN = baseline()
+		schema.VerifC19Start()
+	}
+	if out.class == "" {
+		out = runCalls(e, r, []int{c.Read})
+	}
+	if timing {
+		timeRun += time.Since(tRun)
+		defer func(t time.Time) {
+			timeSettle += time.Since(t)
+			timeCases++
+			if timeCases%200 == 0 {
+				fmt.Fprintf(os.Stderr, "c19 timing: %d cases, run %v, settle+rest %v (settle loop %v, %d polls, dumps %v)\n", timeCases, timeRun, timeSettle, timeLoop, timeIters, timeDump)
+			}
+		}(time.Now())
+	}
+
+	st := settle(c, e, base, baseN, out)
+	blocked, leaked, sum, earlyWhy, finalEvents := st.blocked, st.leaked, st.sum, st.earlyWhy, st.events
+
 	obs := Obs{Class: out.class, Msg: out.msg, Chunks: out.chunks, EOF: out.eof, Blocked: blocked, Leaked: leaked, Hook: sum,
 		Execs: []string{}, Producers: []string{}, Sched: e.sched}
 	e.mu.Lock()
@@ -516,7 +555,7 @@ func (engine) Run(ci any) lib.Result {
 	sort.Strings(obs.Producers)
 
 	res := lib.Result{Obs: &obs}
-	res.Tags = tagsOf(c, e, &obs)
+	res.Tags = append(tagsOf(c, e, &obs), preTag...)
 
 	if out.class == "panic" || out.class == "hang" {
 		res.Oracle = "streaming run " + out.class + ": " + out.msg
@@ -557,7 +596,7 @@ func (engine) Run(ci any) lib.Result {
 		// skipped — outside the property
 		obs.Class = "early_end"
 		obs.Msg = why
-		res.Tags = tagsOf(c, e, &obs)
+		res.Tags = append(tagsOf(c, e, &obs), preTag...)
 		e.releaseAll()
 		quiesce(base)
 		return res
